@@ -513,3 +513,82 @@ func c20R10(c *Ctx) {
 		c.R.Ob(rule, name+":both-keys-in-distinct-regions", dup == "" && both, c.P.Pos(f.F.Pos()), fname(f), "copy destination used twice: "+shorten(dup))
 	}
 }
+
+// c19R8: the pool is in step with the committed state when the commit hook returns; the dedup cache outlives the backlog.
+func c19R8(c *Ctx) {
+	rule := c.R.Rule("R8", "pool catches up inside the commit hook: EVMApp.OnCommit calls pool.updateToState synchronously (a `go` statement lets the next Reap run before the committed nonces are dropped); the default mempool's duplicate cache is created with a compile-time constant capacity, independent of configuration (a capacity derived from block_size is smaller than an unbounded backlog: queued transactions fall out of the cache and are accepted again)", 3)
+	if f := c.Anchor(rule, evmT+".OnCommit"); f != nil {
+		n, async := 0, false
+		for _, ci := range f.Calls() {
+			if cfgxCallee(ci) == tpT+".updateToState" {
+				n++
+				if _, isGo := ci.(*ssa.Go); isGo {
+					async = true
+				}
+				if _, isDefer := ci.(*ssa.Defer); isDefer {
+					async = true
+				}
+			}
+		}
+		// a `go` of a closure/bound method shows up as a Go instruction whose callee is resolved by the call graph
+		for _, b := range f.F.Blocks {
+			for _, ins := range b.Instrs {
+				if g, ok := ins.(*ssa.Go); ok {
+					for _, callee := range c.P.Callees(g) {
+						if strings.HasSuffix(core.FuncName(callee), ".updateToState") || strings.Contains(core.FuncName(callee), "updateToState$bound") {
+							n++
+							async = true
+						}
+					}
+				}
+			}
+		}
+		c.R.Ob(rule, "OnCommit:updateToState-synchronous", n >= 1 && !async, c.P.Pos(f.F.Pos()), fname(f), fmt.Sprintf("%d call(s), asynchronous=%v", n, async))
+	}
+	n := 0
+	for _, s := range c.AllCalls(cfgx.Named("gemmill/mempool.newTxCache")) {
+		n++
+		_, isConst := s.Call.Common().Args[0].(*ssa.Const)
+		c.R.Ob(rule, "txCache-capacity-constant:"+core.Short(fname(s.Fn)), isConst, c.Pos(s.Call), fname(s.Fn), "capacity is "+shorten(callArg(s.Call, 0)))
+	}
+	c.R.Ob(rule, "txCache-constructions", n >= 1, "-", "", fmt.Sprintf("%d", n))
+}
+
+// c20R11: the flush timer never blocks while holding its mutex.
+func c20R11(c *Ctx) {
+	rule := c.R.Rule("R11", "non-blocking timer fire: ThrottleTimer.fireRoutine (MConnection's flush timer) offers its tick with a select that has a default branch — it runs with the timer's mutex held, and sendRoutine's next flushTimer.Set() needs that mutex: a blocking offer deadlocks the send side of the connection for good", 1)
+	f := c.Anchor(rule, "gemmill/modules/go-common.(*ThrottleTimer).fireRoutine")
+	if f == nil {
+		return
+	}
+	n, blocking := 0, 0
+	for _, b := range f.F.Blocks {
+		for _, ins := range b.Instrs {
+			switch x := ins.(type) {
+			case *ssa.Select:
+				n++
+				if x.Blocking {
+					blocking++
+				}
+			case *ssa.Send:
+				n++
+				blocking++
+			}
+		}
+	}
+	c.R.Ob(rule, "fireRoutine:non-blocking-offer", n >= 1 && blocking == 0, c.P.Pos(f.F.Pos()), fname(f), fmt.Sprintf("%d channel operations, %d blocking", n, blocking))
+}
+
+// setRoundRule (C12-R11; the same obligation is part of C15-R9).
+func setRoundRule(c *Ctx, id string) {
+	rule := c.R.Rule(id, "every round up to the current one has vote sets: HeightVoteSet.SetRound runs addRound for r = hvs.round+1 .. round inclusive (callers pass round+1: with an exclusive bound no round above 0 is ever created, votes survive only through the two-per-peer catch-up allowance and then vanish, and no timeout is pending)", 1)
+	if f := c.Anchor(rule, "gemmill/consensus/pbft.(*HeightVoteSet).SetRound"); f != nil {
+		loopVar := "phi((a0.round + 1)|(loop + 1))"
+		cs := f.CallsTo(cfgx.Named("gemmill/consensus/pbft.(*HeightVoteSet).addRound"))
+		ok := len(cs) == 1
+		for _, ci := range cs {
+			ok = ok && callArg(ci, 1) == loopVar && f.HasGuard(ci.(ssa.Instruction), eqs("("+loopVar+" <= a1)"))
+		}
+		c.R.Ob(rule, "SetRound:all-rounds-up-to-target-inclusive", ok, c.P.Pos(f.F.Pos()), fname(f), "")
+	}
+}
